@@ -50,6 +50,20 @@ Section Agree.
     - subst r. reflexivity.
   Qed.
 
+  Lemma cons_agree xs ox rx (f : evaluation -> outcome (list arg * evaluation)) (g : evaluation -> evl_res) acc :
+    agree_res ox rx -> (forall a, agree_lres (f a) (g a)) -> agree_lres (eval_cons ox f acc) (ev_cons xs rx g acc).
+  Proof.
+    intros Hx Hf. unfold eval_cons, ev_cons.
+    destruct ox as [[x' e]|e|s]; cbn in Hx |- *.
+    - subst rx. specialize (Hf (ev_or acc e)).
+      destruct (f (ev_or acc e)) as [[xs' e']|e'|s']; cbn in Hf |- *.
+      + rewrite Hf. reflexivity.
+      + destruct Hf as (l' & e2 & ->). eauto.
+      + rewrite Hf. reflexivity.
+    - destruct Hx as (a' & e' & ->). eauto.
+    - subst rx. reflexivity.
+  Qed.
+
   Lemma list_agree l : Forall (fun a => agree_res (evaluate lk isr a) (evaluate_mut lk' isr a)) l ->
     forall acc,
     agree_lres
@@ -59,15 +73,7 @@ Section Agree.
           match l with [] => ElOk [] acc | x :: xs => ev_cons xs (evaluate_mut lk' isr x) (go xs) acc end) l acc).
   Proof.
     induction 1 as [|x xs Hx Hxs IH]; intros acc; [reflexivity|].
-    unfold eval_cons, ev_cons.
-    destruct (evaluate lk isr x) as [[x' e]|e|s]; cbn in Hx |- *.
-    - rewrite Hx. specialize (IH (ev_or acc e)).
-      match goal with |- context [I64.bind ?o _] => destruct o as [[xs' e']|e'|s'] end; cbn in IH |- *.
-      + rewrite IH. reflexivity.
-      + destruct IH as (l' & e2 & ->). eauto.
-      + rewrite IH. reflexivity.
-    - destruct Hx as (a' & e' & ->). eauto.
-    - rewrite Hx. reflexivity.
+    apply cons_agree; [exact Hx|exact IH].
   Qed.
 
   Lemma evaluate_mut_agrees a : agree_res (evaluate lk isr a) (evaluate_mut lk' isr a).
